@@ -570,6 +570,8 @@ RULES["eq"] = elementwise(seq)
 RULES["ne"] = elementwise(sne)
 RULES["lt"] = elementwise(slt)
 RULES["le"] = elementwise(sle)
+RULES["le_to"] = elementwise(sle)  # total-order comparisons (sort / searchsorted): identical to le / lt on non-NaN reals (A-REAL)
+RULES["lt_to"] = elementwise(slt)
 RULES["gt"] = elementwise(sgt)
 RULES["ge"] = elementwise(sge)
 RULES["stop_gradient"] = elementwise(lambda a: a)
@@ -1310,7 +1312,14 @@ def _cumsum(ctx, eqn, a):
     def fn(idx):
         i = idx[ax]
         if not is_const(i):
-            raise Unsupported("cumsum at symbolic index")
+            # symbolic position into a concrete extent: ite chain over the positions
+            if n > 64:
+                raise Unsupported("cumsum at symbolic index over a large extent")
+            out = None
+            for c in range(n - 1, -1, -1):
+                v = fn(tuple(list(idx[:ax]) + [c] + list(idx[ax + 1:])))
+                out = v if out is None else site(seq(i, c), v, out)
+            return out
         rng = range(i, n) if rev else range(0, i + 1)
         out = 0
         for j in rng:
